@@ -12,6 +12,7 @@ import (
 	"strings"
 	"sync"
 	"sync/atomic"
+	"time"
 )
 
 type Task struct{ done atomic.Bool }
@@ -73,3 +74,10 @@ func (h *H) LiveUnder(root *Task) []string { return nil }
 func (h *H) Live() []string { return nil }
 
 func JoinSites(s []string) string { return strings.Join(s, " ") }
+
+// The virtual clock of the scheduled build (harness code may name it).
+var t0 = time.Unix(1700000000, 0)
+
+func Now() time.Time                  { return t0 }
+func Since(t time.Time) time.Duration { return t0.Sub(t) }
+func Until(t time.Time) time.Duration { return t.Sub(t0) }
